@@ -31,8 +31,8 @@ pub struct XmlDoc {
 }
 
 const PREFIXES: &[&str] = &["a", "b", "a", "b", "p", "a", "xml", "xmlns"];
-const LOCALS: &[&str] = &["x", "y", "z", "script", "xmlns", "e"];
-const URIS: &[&str] = &["u1", "u2", "", XML_NS, XMLNS_NS, "u1"];
+const LOCALS: &[&str] = &["x", "y", "z", "script", "xmlns", "e", "template"];
+const URIS: &[&str] = &["u1", "u2", "", XML_NS, XMLNS_NS, "u1", "http://www.w3.org/1999/xhtml"];
 const VALUES: &[&str] = &["", "v", "1", "a b", "&amp;", "&lt;", "&#13;", "&#9;", "'", "&quot;", "é", ">", "\t", "\n"];
 const TEXTS: &[&str] = &[
     "t", " ", "\n", "x y", "&amp;", "&lt;", "&gt;", "&#65;", "&#x41;", "é", "&apos;", "&quot;", "]]>", "\r\n", "\r", "\0",
